@@ -12,6 +12,10 @@ pub fn plan() -> Plan {
     let mut single = base_profile("c01-single");
     single.stepping = Stepping::Single;
     single.burst_pm = 150;
+    // MQTT 5 subscribers that announce a Topic Alias Maximum, publishers that use aliases of their own
+    single.alias_pm = 250;
+    single.pub_alias_pm = 200;
+    mixed.alias_pm = 120;
     // small retention: slow subscribers lose evicted messages (tolerated), everything else is judged
     let mut lossy = base_profile("c01-small-retention");
     lossy.segments = vec![(1024, 1), (1024, 2), (2048, 3)];
